@@ -3,8 +3,9 @@
    engine `readonly` (stateless: every line carries the cache state S = `d=<id>:<valid><survives>,..|-  a=<conv><needinit><valid>,..|-`
    observed by the harness):
      load <seed> | mods <seed> | arena <mode> [mask] | drop   -> ok
-     observe after-load|after-refresh|after-load-binding S     -> seen   iff the model's CachesValid holds for S
+     observe after-load|after-refresh S                        -> seen   iff the model's CachesValid holds for S
      observe after-mod S                                       -> seen
+     expect-valid                                              -> valid  (corpus: the harness reports whether every flag is set)
      refresh S                                                 -> S' = Hw.Conc.refresh
      call <entry> <id> <ok> S                                  -> ro | write dist <id> | write attr <i>   (first unlocked write of `events`)
      wcall <entry> <id> <ok> S                                 -> S' after the writes of `events` landed
@@ -62,7 +63,9 @@ def showState (s : TopoState) : String :=
 def entryReader (name : String) (id : Nat) (ok : Bool) : Option Reader :=
   match name with
   | "depth_queries" | "get_obj_by_depth" | "get_next_obj" | "os_index_lookup" | "tree_walk" | "ancestors"
-  | "cpuset_helpers" | "distrib" | "io_iter" | "topology_meta" | "topology_check" => some (.pure .traversal)
+  | "cpuset_helpers" | "distrib" | "io_iter" | "topology_meta" | "topology_check" | "topology_dup"
+  | "shmem_get_length" | "type_predicates" => some (.pure .traversal)
+  | "diff_build" => some .diffBuild
   | "type_snprintf" => some (.pure .typePrint)
   | "info_queries" => some (.pure .infoQuery)
   | "set_getters" => some (.pure .setGetter)
@@ -119,12 +122,13 @@ def stepRO (_ : Unit) (line : String) : Unit × String :=
   let bad := ((), "bad-op")
   match tokens line with
   | ["load", _] | ["loadbind", _] | ["mods", _] | ["arena", _] | ["arena", _, _] | ["drop"] => ((), "ok")
+  | ["expect-valid"] => ((), "valid")
   | ["observe", w, d, a] =>
     match parseState d a with
     | none => bad
     | some s =>
       if w = "after-mod" then ((), "seen")
-      else if w = "after-load" || w = "after-refresh" || w = "after-load-binding" then
+      else if w = "after-load" || w = "after-refresh" then
         ((), if cachesValidB s then "seen" else "violates C17_refresh_validates " ++ showState s)
       else bad
   | ["refresh", d, a] =>
